@@ -39,6 +39,26 @@ _XOR = bytes(b ^ 0x5A for b in range(256))
 
 
 # =============================================================================================== shared helpers
+class CapAcc(Acc):
+    """Acc that keeps at most CAP failure records per class (the scopes here produce tens of thousands of failing cases for a
+    single defect); the full per-class totals are returned under the extra key 'failure_counts'."""
+    CAP = 40
+
+    def __init__(self, *a):
+        super().__init__(*a)
+        self.counts = {}
+
+    def fail(self, cls, case, observed, expected=None):
+        self.counts[cls] = self.counts.get(cls, 0) + 1
+        if self.counts[cls] <= self.CAP:
+            super().fail(cls, case, observed, expected)
+
+    def result(self):
+        res = super().result()
+        res["failure_counts"] = dict(sorted(self.counts.items()))
+        return res
+
+
 def _sizes(pl):
     return sorted({0, 1, B - 1, B, B + 1, pl - 1, pl, pl + 1, 2 * pl - 1, 2 * pl, 2 * pl + 1, 3 * pl, 3 * pl + B + 1, 5 * pl})
 
@@ -353,16 +373,20 @@ def _c13_eval(case):
     return out
 
 
-def _c13_eval_memo(case):
+def _c13_eval_memo(case, keep=True):
+    """results of plain cases and of the intermediate cases of an attribution are kept for the duration of one harness run"""
     key = json.dumps(case, sort_keys=True)
-    if key not in _MEMO:
-        try:
-            _MEMO[key] = _c13_eval(case)
-        except KeyboardInterrupt:
-            raise
-        except BaseException as e:      # noqa: BLE001
-            _MEMO[key] = [(f"harness-error:{type(e).__name__}", traceback.format_exc()[-500:], "harness runs")]
-    return _MEMO[key]
+    if key in _MEMO:
+        return _MEMO[key]
+    try:
+        res = [(sym, str(obs)[:600], exp) for sym, obs, exp in _c13_eval(case)]
+    except KeyboardInterrupt:
+        raise
+    except BaseException as e:      # noqa: BLE001
+        res = [(f"harness-error:{type(e).__name__}", traceback.format_exc()[-500:], "harness runs")]
+    if keep:
+        _MEMO[key] = res
+    return res
 
 
 C13_DEFAULTS = [("dest", "abs"), ("cwd", "neutral"), ("meta_as", "list"), ("decoys", []), ("scatter", "orig")]
@@ -387,7 +411,7 @@ def _c13_case(acc, case):
     case = dict(case)
     for k, v in C13_DEFAULTS:
         case.setdefault(k, v)
-    res = _c13_eval_memo(case)
+    res = _c13_eval_memo(case, keep=_is_plain(case))
     if not res:
         return
     v = VLABEL[case["version"]]
@@ -498,7 +522,7 @@ def _c13_cases(tier, seed):
         # reference-encoded metafiles (another conformant creator): v2 / hybrid with empty files have no "pieces root";
         # v1 with BEP 47 padding files
         refspecs = [_spec("t", [pl + 1, 0, 3 * pl], "deep"), _spec("t", [0, pl + 1, 10], "flat"), _spec("single.bin", [2 * pl + 1], "single"),
-                    _spec("t", [pl + 1, 3 * pl + 7, 100], "deep")]
+                    _spec("t", [pl + 1, 3 * pl + 7, 100], "deep"), _spec("t", [pl + 1, 100, 10], "deep")]
         for spec in refspecs:
             for version in (1, 2, 3):
                 cases.append({"prop": "C13", "version": version, "pl": pl, "creator": "ref", "torrents": [spec], "seed": seed})
@@ -524,7 +548,7 @@ def _c13_cases(tier, seed):
 
 @harness("C13")
 def h_c13(tier, seed, hints):
-    acc = Acc("C13", "rebuild into an empty destination from search directories holding an intact copy of every file (original layout / flat / "
+    acc = CapAcc("C13", "rebuild into an empty destination from search directories holding an intact copy of every file (original layout / flat / "
               "deep / split over two directories; unrelated files, same-named files of other sizes, same-named same-sized files with other "
               "content in directories handed over before / after / next to the intact copy; relative and '.' destinations; batches given as "
               "list and as directory); oracle = reference recheck of the destination == 100%, every zero-length file created, returned "
@@ -719,7 +743,7 @@ def _c14_cases(tier, seed):
 
 @harness("C14")
 def h_c14(tier, seed, hints):
-    acc = Acc("C14", "repeated rebuilds (with all search directories / with the decoy directories only) into destinations that already hold "
+    acc = CapAcc("C14", "repeated rebuilds (with all search directories / with the decoy directories only) into destinations that already hold "
               "correct, wrong same-length, shorter (prefix / garbage) and unrelated files; search directories with intact copies of all / "
               "some / none of the files plus same-named same-sized decoys every byte of which differs (before / after / next to the intact "
               "copy), partly matching candidates, other sizes, unrelated files.  Full snapshots (names, sizes, SHA-256) before and after "
@@ -954,7 +978,7 @@ def _c19_cases(tier):
 
 @harness("C19")
 def h_c19(tier, seed, hints):
-    acc = Acc("C19", "reference-encoded v1 / v2 / hybrid metafiles (single- and multi-file) whose name, directory elements and last path element "
+    acc = CapAcc("C19", "reference-encoded v1 / v2 / hybrid metafiles (single- and multi-file) whose name, directory elements and last path element "
               "are hostile ('..', '.', '', absolute, embedded separators, long '..' chains), matching candidate files present in the search "
               "directory, victims absent / shorter / same-sized at the place the hostile path points to, working directory with and without "
               "the torrent-relative directories; whole-sandbox snapshot (names, SHA-256) before / after: nothing outside the destination may "
